@@ -611,6 +611,16 @@ func (fr *frame) enterLoop(b *ssa.BasicBlock, ord int, st *state) {
 	if g.dry {
 		return
 	}
+	// built-in invariant of range-over-slice loops: the hidden index starts at -1 and only grows
+	for _, ins := range b.Instrs {
+		ph, ok := ins.(*ssa.Phi)
+		if !ok {
+			break
+		}
+		if ph.Comment == "rangeindex" {
+			g.assert("(=> " + st.cur + " " + fr.autoRange(b, ph, fr.env[ph].S) + ")")
+		}
+	}
 	// assume the invariant
 	if fr.con != nil {
 		if ls := fr.con.Loops[ord]; ls != nil {
@@ -674,6 +684,29 @@ func (fr *frame) loopObligations(b *ssa.BasicBlock, ord int) {
 	if g.dry {
 		return
 	}
+	// the built-in range-index invariant is checked like any other
+	for pi, p := range b.Preds {
+		ps := fr.out[p.Index]
+		if ps == nil {
+			continue
+		}
+		for _, ins := range b.Instrs {
+			ph, ok := ins.(*ssa.Phi)
+			if !ok {
+				break
+			}
+			if ph.Comment != "rangeindex" {
+				continue
+			}
+			g.horizon = fr.outHz[p.Index]
+			if g.horizon == 0 {
+				g.horizon = 1
+			}
+			est := &state{cur: "(and " + ps.cur + " " + fr.edge[[2]int{p.Index, b.Index}] + ")", heap: ps.heap}
+			g.addObl(fr, est, "inv", fmt.Sprintf("loop%d[auto-range]/from-b%s", ord, edgeTag(fr, p, b)), "range index stays within [-1, len)", b.Instrs[0].Pos(), fr.autoRange(b, ph, fr.val(ph.Edges[pi]).S))
+		}
+	}
+	g.horizon = 0
 	var ls *LoopSpec
 	if fr.con != nil {
 		ls = fr.con.Loops[ord]
@@ -753,6 +786,30 @@ func (fr *frame) loopObligations(b *ssa.BasicBlock, ord int) {
 			}
 		}
 	}
+}
+
+// autoRange is the built-in invariant of a range-over-slice/array loop for index value v: -1 <= v < len,
+// where len is the bound the compiler-generated header compares (index+1) with.
+func (fr *frame) autoRange(b *ssa.BasicBlock, ph *ssa.Phi, v string) string {
+	var next ssa.Value
+	for _, ins := range b.Instrs {
+		if bo, ok := ins.(*ssa.BinOp); ok {
+			if bo.Op == token.ADD && bo.X == ph {
+				next = bo
+			}
+			if bo.Op == token.LSS && next != nil && bo.X == next {
+				switch y := bo.Y.(type) {
+				case *ssa.Const:
+					return "(and (<= (- 1) " + v + ") (< " + v + " " + fr.g.constTerm(y).S + "))"
+				default:
+					if t, ok := fr.env[bo.Y]; ok {
+						return "(and (<= (- 1) " + v + ") (< " + v + " " + t.S + "))"
+					}
+				}
+			}
+		}
+	}
+	return "(<= (- 1) " + v + ")"
 }
 
 // (horizon is reset by the caller)
